@@ -511,6 +511,7 @@ func runSeq(p *Plan, tape *simrt.Tape, opt RunOpt) *RunOut {
 	})
 	d.fileProbes(fs)
 	out.addFS(fs)
+	out.FinalFS = fs
 	out.addProbes(d.Probes)
 	viol := d.Viol
 	if only := onlyClass(p); only != "" && viol != nil && !strings.HasPrefix(viol.Class, only) {
